@@ -57,6 +57,13 @@ pub enum E1 {
         plain: bool,
     },
     Delta,
+    /// a plain field in front of a renamed one, another plain one behind it (each travels under its own name)
+    Zeta {
+        limit: u64,
+        #[zlink(rename = "usedBytes")]
+        used_bytes: Option<u64>,
+        note: String,
+    },
     /// every field is optional: a value with nothing set still has fields, so it still has `parameters`
     Eps {
         a: Option<u32>,
@@ -475,6 +482,8 @@ pub fn run_all(r: &mut Rng, stats: &mut Stats) {
             (E1::Gamma { first_name: "f".into(), count: Some(2), plain: true }, "Gamma", vec!["firstName", "n", "plain"]),
             (E1::Gamma { first_name: "g".into(), count: None, plain: false }, "Gamma", vec!["firstName", "n", "plain"]),
             (E1::Delta, "Delta", vec![]),
+            (E1::Zeta { limit: 10, used_bytes: Some(12), note: "n".into() }, "Zeta", vec!["limit", "usedBytes", "note"]),
+            (E1::Zeta { limit: 0, used_bytes: None, note: String::new() }, "Zeta", vec!["limit", "usedBytes", "note"]),
             (E1::Eps { a: None, b: None }, "Eps", vec!["a", "bee"]),
             (E1::Eps { a: Some(1), b: None }, "Eps", vec!["a", "bee"]),
             (E1::Eps { a: None, b: Some("x".into()) }, "Eps", vec!["a", "bee"]),
